@@ -126,6 +126,7 @@ type rrSubject struct {
 	rb     *roundrobin.Rebalancer
 	h      *scriptHandler
 	sticky *roundrobin.StickySession
+	direct bool
 }
 
 // scriptHandler is the wrapped handler: it records where the request was routed and
@@ -264,6 +265,8 @@ func newRRSubject(cfg M, seed int64) *rrSubject {
 	return s
 }
 
+// direct: the next administration call goes to the wrapped balancer itself, not through the rebalancer (a balancer that was
+// populated before it was wrapped, or that somebody else also manages)
 func (s *rrSubject) upsert(u *url.URL, w int, more ...int) error {
 	var o []roundrobin.ServerOption
 	if w >= 0 {
@@ -272,14 +275,14 @@ func (s *rrSubject) upsert(u *url.URL, w int, more ...int) error {
 	for _, x := range more { // further options of the same call (a negative weight makes the call fail)
 		o = append(o, roundrobin.Weight(x))
 	}
-	if s.rb != nil {
+	if s.rb != nil && !s.direct {
 		return s.rb.UpsertServer(u, o...)
 	}
 	return s.rr.UpsertServer(u, o...)
 }
 
 func (s *rrSubject) remove(u *url.URL) error {
-	if s.rb != nil {
+	if s.rb != nil && !s.direct {
 		return s.rb.RemoveServer(u)
 	}
 	return s.rr.RemoveServer(u)
@@ -335,6 +338,7 @@ func runRR(sc Scenario, tr *Trace, seed int64) {
 			advance(time.Duration(num(st, "d")) * time.Second)
 		case "upsert":
 			k, v, w := str(st, "k"), numOr(st, "v", 0), numOr(st, "w", -1)
+			s.direct = boolOr(st, "direct", false)
 			if pv, ok := varOf[k]; ok && boolOr(st, "keepvar", false) {
 				v = pv
 			}
@@ -360,6 +364,7 @@ func runRR(sc Scenario, tr *Trace, seed int64) {
 			tr.Emit(M{"e": "Upsert", "k": k, "v": v, "w": w, "err": err != nil, "members": s.members()})
 		case "remove":
 			k, v := str(st, "k"), numOr(st, "v", 0)
+			s.direct = boolOr(st, "direct", false)
 			err := s.remove(s.tab.url(k, v))
 			tr.Emit(M{"e": "Remove", "k": k, "v": v, "err": err != nil, "members": s.members()})
 		case "pick":
